@@ -141,7 +141,10 @@ impl Module {
             r.text.push_str(nl);
             if !a.comment.is_empty() {
                 r.text.push_str(&a.comment.replace('\n', nl));
-                r.text.push_str(nl);
+                // a closed `-- .. --` comment with two trailing blanks leads the assignment's own line
+                if !a.comment.ends_with("--  ") {
+                    r.text.push_str(nl);
+                }
             }
             let start = r.text.len();
             r.text.push_str(&a.text.replace('\n', nl));
@@ -814,11 +817,13 @@ impl<'a> G<'a> {
 
     fn comment(&mut self, nlines: usize) -> String {
         let mut out = vec![];
-        for _ in 0..nlines {
-            match self.rng.below(4) {
+        for k in 0..nlines {
+            match self.rng.below(5) {
                 0 => out.push("-- a line comment ::= with tokens { } ( ) inside".to_string()),
                 1 => out.push("-- paired comment -- ".to_string()),
                 2 => out.push("/* block comment\n   over two lines */".to_string()),
+                // a closed comment in front of the assignment, on the assignment's own line
+                3 if k + 1 == nlines => out.push("-- lead --  ".to_string()),
                 _ => out.push(String::new()),
             }
         }
